@@ -508,8 +508,26 @@ func (x *Exec) execIf(s *ast.IfStmt, st *State) flow {
 			normals = append(normals, e)
 		}
 	}
-	out.normal = x.join(base, normals)
+	out.normal = x.joinOrReturn(s, base, normals)
 	return out
+}
+
+// joinOrReturn joins the fall-through states of a branching statement -- except when the statement is
+// the last one of the function under contract: then every branch falls off the end of the function, and
+// the postconditions are checked per branch (smaller queries than one check after the join).
+func (x *Exec) joinOrReturn(node ast.Stmt, base *State, normals []*State) *State {
+	if x.tailStmt == nil || x.tailStmt != node || len(x.frames) != 1 {
+		return x.join(base, normals)
+	}
+	fr := x.top()
+	for _, n := range normals {
+		if n == nil {
+			continue
+		}
+		st := n
+		x.tryPath(func() { x.doReturn(fr, st, nil, node.End()) })
+	}
+	return nil
 }
 
 func (x *Exec) execSwitch(s *ast.SwitchStmt, st *State) flow {
@@ -580,7 +598,7 @@ func (x *Exec) execSwitch(s *ast.SwitchStmt, st *State) flow {
 	} else {
 		normals = append(normals, d)
 	}
-	out.normal = x.join(base, normals)
+	out.normal = x.joinOrReturn(s, base, normals)
 	return out
 }
 
@@ -670,6 +688,6 @@ func (x *Exec) execTypeSwitch(s *ast.TypeSwitchStmt, st *State) flow {
 	} else {
 		normals = append(normals, d)
 	}
-	out.normal = x.join(base, normals)
+	out.normal = x.joinOrReturn(s, base, normals)
 	return out
 }
